@@ -159,6 +159,55 @@ def has_literals(js) -> bool:
   return False
 
 
+# --------------------------------------------------------------------------- lookups
+def lookups_of(d, spec) -> dict:
+  """d[decision point], d[id], d[str(id)] for every decision point; d[multi spec], d[multi id]; d[name].
+
+  Also serves to *warm* every lazily built lookup table of `d` (decision-by-id cache, named decisions)."""
+  pg = geno._pg()  # pylint: disable=protected-access
+  DNA = pg.DNA
+  out: Dict[str, Any] = {'lookups': [], 'multis': [], 'names': []}
+  for dp in spec.decision_points:
+    row = []
+    for key in (dp, dp.id, str(dp.id)):
+      try:
+        v = d[key]
+        row.append(INACTIVE if v is None else (project(v) if isinstance(v, DNA) else ['list', len(v), []]))
+      except Exception:  # pylint: disable=broad-except
+        row.append(['!', 0, []])
+    out['lookups'].append(row)
+  named = {}
+  multis = []
+  for dp in spec.decision_points:
+    target = dp.parent_spec if (dp.is_categorical and dp.is_subchoice) else dp
+    if dp.is_categorical and dp.is_subchoice:
+      if dp.subchoice_index == 0:
+        multis.append(target)
+      else:
+        continue
+    if target.name is not None:
+      named.setdefault(target.name, []).append(target)
+  for m in multis:
+    row = [id_tokens(m.id)]
+    for key in (m, m.id):
+      try:
+        v = d[key]
+        row.append([INACTIVE] if v is None else [INACTIVE if x is None else project(x) for x in v])
+      except Exception:  # pylint: disable=broad-except
+        row.append([['!', 0, []]])
+    out['multis'].append(row)
+  for name, targets in named.items():
+    if len(targets) != 1:
+      continue                      # several decision points under one name: outside the compared domain
+    try:
+      v = d[name]
+      vs = v if isinstance(v, list) else [v]
+      out['names'].append([id_tokens(targets[0].id), [INACTIVE if x is None else project(x) for x in vs]])
+    except Exception:  # pylint: disable=broad-except
+      out['names'].append([id_tokens(targets[0].id), [['!', 0, []]]])
+  return out
+
+
 # --------------------------------------------------------------------------- one DNA: round trips, lookups
 def observe_dna(spec, js, tree, nodes, opt_tuples, errs) -> dict:
   pg = geno._pg()  # pylint: disable=protected-access
@@ -195,45 +244,8 @@ def observe_dna(spec, js, tree, nodes, opt_tuples, errs) -> dict:
       dd = d.to_dict(kt, vt, mk, inact)
       return DNA.from_dict(dict(dd), spec, use_ints_as_literals=(vt == 'literal' and intlit))
     rt(name, f, ann=False)
-  # lookups
-  for dp in spec.decision_points:
-    row = []
-    for key in (dp, dp.id, str(dp.id)):
-      try:
-        v = d[key]
-        row.append(INACTIVE if v is None else (project(v) if isinstance(v, DNA) else ['list', len(v), []]))
-      except Exception as e:  # pylint: disable=broad-except
-        row.append(['!', 0, []])
-    rec['lookups'].append(row)
-  named = {}
-  multis = []
-  for dp in spec.decision_points:
-    target = dp.parent_spec if (dp.is_categorical and dp.is_subchoice) else dp
-    if dp.is_categorical and dp.is_subchoice:
-      if dp.subchoice_index == 0:
-        multis.append(target)
-      else:
-        continue
-    if target.name is not None:
-      named.setdefault(target.name, []).append(target)
-  for m in multis:
-    row = [id_tokens(m.id)]
-    for key in (m, m.id):
-      try:
-        v = d[key]
-        row.append([INACTIVE] if v is None else [INACTIVE if x is None else project(x) for x in v])
-      except Exception as e:  # pylint: disable=broad-except
-        row.append([['!', 0, []]])
-    rec['multis'].append(row)
-  for name, targets in named.items():
-    if len(targets) != 1:
-      continue                      # several decision points under one name: outside the compared domain
-    try:
-      v = d[name]
-      vs = v if isinstance(v, list) else [v]
-      rec['names'].append([id_tokens(targets[0].id), [INACTIVE if x is None else project(x) for x in vs]])
-    except Exception as e:  # pylint: disable=broad-except
-      rec['names'].append([id_tokens(targets[0].id), [['!', 0, []]]])
+  lk = lookups_of(d, spec)
+  rec['lookups'], rec['multis'], rec['names'] = lk['lookups'], lk['multis'], lk['names']
   # the default dictionary view, keyed by decision point
   try:
     for k, v in d.to_dict('dna_spec', 'value', 'subchoice', True).items():
@@ -302,18 +314,23 @@ def observe_chain(spec, js, start_tree, pool, nodes, length, rng, errs) -> dict:
   for _ in range(length):
     op = OPS[rng.randrange(len(OPS))]
     before = project(d)
+    # the user inspects the DNA before handing it to the operation: every lazily built table of `d` is warm
+    lookups_of(d, spec)
+    views(d)
     try:
       out = apply_op(op, d, spec, js, pool, rng)
     except Exception as e:  # pylint: disable=broad-except
       # the step is recorded as "raised"; TLC reports it (an operation on a valid DNA must not raise)
-      steps.append([op, before, ['!', 0, [], ['raised:' + type(e).__name__, [], -1]], [], [], True])
+      steps.append([op, before, ['!', 0, [], ['raised:' + type(e).__name__, [], -1]], [], [], True,
+                    {'lookups': [], 'multis': [], 'names': []}])
       break
     try:
       rebuilt = pg.DNA.from_numbers(out.to_numbers(), spec)
       vr = views(rebuilt)
     except Exception as e:  # pylint: disable=broad-except
       vr = ['REBUILD-ERR:' + type(e).__name__]
-    steps.append([op, before, project_ann(out, nodes), views(out), vr, project(d) == before])
+    steps.append([op, before, project_ann(out, nodes), views(out), vr, project(d) == before,
+                  lookups_of(out, spec)])
     d = out
   return {'start': project(mk_dna(start_tree)), 'steps': steps}
 
